@@ -148,6 +148,37 @@ def r08_3(ctx):
             o["rule"] = "R08.3"
 
 
+def r08_4(ctx):
+    """128-bit integers are read back over their whole range: the text is parsed with its sign (the magnitude of
+    i128::MIN does not fit an i128, so parse-then-negate rejects what the writer prints for i128::MIN)"""
+    from ..analysis import forward_derived
+    prog = ctx.prog()
+    n = 0
+    for f in prog.fns.values():
+        if f.crate != "sonic_rs":
+            continue
+        for b, t in f.calls():
+            if not (callee_is(t, "parse") and "str" in t["callee"]):
+                continue
+            g = t.get("rgargs") or t.get("gargs") or []
+            if not any(x in ("i128", "i64", "i32", "i16", "i8", "isize") for x in g):
+                continue
+            n += 1
+            cands = [(s["rv"]["a"], s) for bb, i, s in f.assigns() if s["rv"]["k"] == "unop" and s["rv"]["op"] == "Neg"]
+            cands += [(tt["args"][0], tt) for bb, tt in f.calls() if tt["callee"].rsplit("::", 1)[-1] in ("neg", "wrapping_neg", "checked_neg", "overflowing_neg") and tt["args"]]
+            negs = []
+            for o, site in cands:
+                l = op_local(o)
+                sl, leaves = backward_slice(f, [l]) if l is not None else (set(), [])
+                if any(lf[0] == "call" and lf[1] == b and lf[2] is t for lf in leaves):
+                    negs.append(site)
+            owner = prog.fns.get(f.parent_fn, f) if f.parent_fn else f
+            ctx.ob("R08.4", f"signed-parse:{short(owner.id)}:{[x for x in g if x[0] == 'i'][0]}", not negs, f.loc(t["ln"]),
+                   "the signed integer is parsed from the text with its sign" if not negs else
+                   "a magnitude parsed as a signed integer is negated afterwards: the most negative value, which the writer prints, is rejected")
+    ctx.floor("R08.4", "str::parse::<signed integer> sites", n, 1)
+
+
 def r08_w(ctx):
     """type-level witnesses (compile_fail doctests with error codes, each with a compiling twin)"""
     from ..core import witness_obligations
@@ -158,6 +189,7 @@ def r08_s(ctx):
     """a raw number holds a grammatically valid number: one-fraction discipline of the validating number skipper (shared with C02)"""
     from . import c02
     ctx.include(c02.r02_10, 'R08.S')
+    ctx.include(c07.r07_9, 'R08.S')
 
 
-RULES = [("R08.1", r08_1), ("R08.2", r08_2), ("R08.3", r08_3), ("R08.W", r08_w), ("R08.S", r08_s)]
+RULES = [("R08.1", r08_1), ("R08.2", r08_2), ("R08.3", r08_3), ("R08.4", r08_4), ("R08.W", r08_w), ("R08.S", r08_s)]
